@@ -682,6 +682,11 @@ def invocation_variants(rep, cls, jobs, rng, n=12):
         variants = [("list options repeated", [sub] + rep_opts, data, None)] if rep_opts != opts else []
         variants += [("input by path", [sub] + opts + [inp], b"", None), ("-q", [sub, "-q"] + opts, data, None), ("-v", [sub, "-v"] + opts, data, None),
                      ("-vv", [sub, "-vv"] + opts, data, None), ("options reversed", [sub] + rev, data, None), ("path first, options after", [sub, inp] + rev, b"", None)]
+        # the name of the input file is no part of the input: the same bytes under names that suggest another format
+        for ext in rng.sample(["npy", "txt", "sfs", "vcf", "bcf", "vcf.gz", "gz", "NPY"], 3):
+            mis = os.path.join(d, "mis_%d.%s" % (k, ext))
+            open(mis, "wb").write(data)
+            variants.append(("input by path named *.%s" % ext, [sub] + opts + [mis], b"", None))
         if sub in ("view", "fold") and "-o" not in opts and "--output" not in opts:
             outp = os.path.join(d, "out_%d" % k)
             variants.append(("-o file", [sub] + opts + ["-o", outp], data, outp))
